@@ -8,7 +8,8 @@
 From GL Require Import Base.Order Base.Varint Base.VarintProofs Base.Cursor Base.CursorProofs
   Codec.BytesCmp Codec.BytesCmpProofs Codec.Block Codec.BlockEnc Codec.BlockProofs Codec.BlockSliceProofs
   Codec.Table Codec.TableProofs Codec.TableIterProofs Codec.IndexedIterProofs Codec.TableSliceProofs Codec.TableDamageProofs Codec.TableDamageIterProofs Codec.TableDamageStrictProofs
-  Codec.TableCheck Codec.TableCheckProofs Codec.TableWriteProofs Codec.TblCrc Gen.Consts Gen.ConstsOkTbl.
+  Codec.TableCheck Codec.TableCheckProofs Codec.TableWriteProofs Codec.TableEmptyProofs Codec.TableSizes Codec.TableWriteSnappyProofs
+  Codec.TablePolicyProofs Codec.Snappy Codec.TblCrc Gen.Consts Gen.ConstsOkTbl.
 
 (* A.0  uvarint: Uvarint (PutUvarint x ++ rest) = (x, len) for every uint64 x. *)
 Theorem C13_uvarint_roundtrip : forall x rest, (x < 2 ^ 64)%N ->
@@ -105,16 +106,59 @@ Print Assumptions C13_table_iter_refines_cursor.
 
 (* (b) NewIterator(&util.Range{start, limit}, ro), each bound optional: the cursor over the pairs
    with start <= key < limit (the index iterator is sliced with inclLimit, the data iterators of
-   the first and last index position are sliced, indexIter.Get's isFirst/isLast rule).
-   PARTIAL only in this: the EMPTY table is excluded.  FULL STATEMENT: the same without the
-   hypothesis tkvs blocks <> [] (on an empty table a range makes the data iterator report a
-   spurious corruption error — see A.4 — while still returning no pair; exercised, not proved). *)
+   the first and last index position are sliced, indexIter.Get's isFirst/isLast rule) - for EVERY
+   well-formed table, the EMPTY one included.  (On the empty table the observations are those of
+   the cursor over the empty list - nothing, ever - although the iterator can REPORT a corruption
+   error on the way: B.4c.) *)
+Theorem C13_table_iter_range_refines_cursor : forall c rd blocks seps hs start limit strict,
+  comparer_ok c -> table_wf c rd blocks seps hs ->
+  exists t, new_titer c rd (Some (start, limit)) strict = inr t /\
+    forall ops, fst (ti_run c rd t ops) = c_run c (restrict c start limit (tkvs blocks)) CSOI ops.
+Proof. exact table_iter_range_refines. Qed.
+Print Assumptions C13_table_iter_range_refines_cursor.
+
+(*     the former partial statement (non-empty tables), kept under its name *)
 Theorem C13_table_iter_range_refines_cursor_partial : forall c rd blocks seps hs start limit strict,
   comparer_ok c -> table_wf c rd blocks seps hs -> tkvs blocks <> [] ->
   exists t, new_titer c rd (Some (start, limit)) strict = inr t /\
     forall ops, fst (ti_run c rd t ops) = c_run c (restrict c start limit (tkvs blocks)) CSOI ops.
 Proof. exact table_iter_sliced_refines. Qed.
 Print Assumptions C13_table_iter_range_refines_cursor_partial.
+
+(* (c) FINDING, stated precisely.  The table the writer produces for NO pairs (one data block
+   without entries, one index entry with the empty separator) is well-formed; NewIterator(nil)
+   walks it silently; but NewIterator(&util.Range{Start: []byte{}}) - an empty, non-nil start
+   key, e.g. util.BytesPrefix([]byte{}) - followed by Seek([]byte{}) makes the data iterator call
+   block.seek with an EMPTY restart range (riStart = riLimit = restartsLen): sort.Search(0) = 0,
+   index = rstart = restartsLen, and the "restart offset" read at that index is the restart-COUNT
+   word (1), so block.entry(1) reports "entries offset not aligned": Error() is a corruption
+   error on an undamaged table.  The same at block level for any Start on an empty block.
+   No pair is returned (B.4b), so the observations still refine the cursor; under the strict
+   flag the error is recorded in the table iterator, otherwise it is swallowed. *)
+Definition ex_empty_reader : treader :=
+  match twrite tblp tbl_crc (fun x => x) bytewise 4096 16 false None [] with
+  | Some f => open_table tblp tbl_crc (fun _ => None) (fun _ _ _ => true) bytewise f None true
+  | None => tr_broken Corrupt
+  end.
+Definition run_err (sl : option krange) (strict : bool) (ops : list cop) :=
+  match new_titer bytewise ex_empty_reader sl strict with
+  | inr t => let '(l, tf) := ti_run bytewise ex_empty_reader t ops in (l, ti_error tf)
+  | inl e => ([], Some e)
+  end.
+Theorem C13_range_iter_empty_table_reports_corruption :
+  table_wf bytewise ex_empty_reader [[]] [[]] [mkBH 0 8] /\
+  run_err None true [OpFirst; OpSeek []; OpLast; OpPrev; OpNext] = ([None; None; None; None; None], None) /\
+  run_err (Some (Some [], None)) true [OpSeek []] = ([None], Some ErrCorrupt) /\
+  run_err (Some (Some [], None)) false [OpSeek []] = ([None], None) /\
+  (match read_block (block_build 16 []) with
+   | Ok b => bi_err (snd (bi_seek bytewise (new_block_iter bytewise b (Some (Some [97]%N, None)) false) [97]%N))
+   | _ => None
+   end) = Some ErrCorrupt.
+Proof.
+  split; [apply (table_wfb_sound bytewise ex_empty_reader 16); vm_compute; reflexivity|].
+  vm_compute. repeat split; reflexivity.
+Qed.
+Print Assumptions C13_range_iter_empty_table_reports_corruption.
 
 (* B.5  offsetof_monotone: approximate offsets never decrease as the key grows. *)
 Theorem C13_offsetof_monotone : forall c rd blocks seps hs k1 k2,
@@ -131,6 +175,44 @@ Theorem C13_filter_independent : forall c rd blocks seps hs key,
   tget_filtered c rd key = tget c rd key.
 Proof. intros c rd blocks seps hs key Hc Hw. exact (tget_filter_independent c Hc rd blocks seps hs Hw key). Qed.
 Print Assumptions C13_filter_independent.
+
+(* B.7  policy_change_invisible: two readers of one well-formed table that differ only in the filter
+   they consult (the writer's policy, another policy, the writer's policy found among the
+   alternatives, none - the component tr_filter - and possibly in dataEnd) answer every exact-match
+   lookup through the filter, every Get, every Find and every movement sequence of every iterator
+   (full or range-restricted, strict or not) identically, provided neither filter has a false
+   negative on the keys of a data block (C16: any policy meeting the policy contract; a reader
+   without a usable filter trivially, C13_filter_absent_sound).  OffsetOf agrees too when both
+   readers have the same dataEnd; it is the ONE observable that depends on the reader's policy:
+   NewReader moves dataEnd from the metaindex block's offset to the filter block's offset only
+   when it recognises the filter, so OffsetOf of a key beyond the last separator differs by the
+   length of the filter block (C13_policy_visible_in_offsetof_beyond_end). *)
+Theorem C13_policy_change_invisible : forall c rd rd' blocks seps hs,
+  comparer_ok c -> table_wf c rd blocks seps hs ->
+  tr_index rd' = tr_index rd -> (forall h, tr_fetch rd' h = tr_fetch rd h) ->
+  filter_sound rd blocks hs -> filter_sound rd' blocks hs ->
+  (forall key, tget_filtered c rd' key = tget_filtered c rd key) /\
+  (forall key, tget c rd' key = tget c rd key) /\
+  (forall key, tfind c rd' key false = tfind c rd key false) /\
+  (forall sl strict, exists t t',
+     new_titer c rd sl strict = inr t /\ new_titer c rd' sl strict = inr t' /\
+     forall ops, fst (ti_run c rd' t' ops) = fst (ti_run c rd t ops)) /\
+  (tr_dataEnd rd' = tr_dataEnd rd -> forall key, toffset_of c rd' key = toffset_of c rd key).
+Proof. exact policy_change_invisible. Qed.
+Print Assumptions C13_policy_change_invisible.
+
+Theorem C13_filter_absent_sound : forall rd blocks hs, tr_filter rd = None -> filter_sound rd blocks hs.
+Proof. exact filter_sound_none. Qed.
+Print Assumptions C13_filter_absent_sound.
+
+(*      ... and at the byte level NewReader on the same file under ANY reader policy (filter name or
+   none, any contains function) yields readers with the same index block and the same block
+   fetches - the hypotheses of B.7. *)
+Theorem C13_open_table_policy_independent : forall tp crc decompress fc1 fc2 c file fn1 fn2 verify,
+  tr_index (open_table tp crc decompress fc2 c file fn2 verify) = tr_index (open_table tp crc decompress fc1 c file fn1 verify) /\
+  forall h, tr_fetch (open_table tp crc decompress fc2 c file fn2 verify) h = tr_fetch (open_table tp crc decompress fc1 c file fn1 verify) h.
+Proof. exact open_table_policy_indep. Qed.
+Print Assumptions C13_open_table_policy_independent.
 
 (* ------------------------------------------------------------------------------------------------
    Stage C (bytes).  The checksum and the compression codec are parameters. *)
@@ -198,9 +280,9 @@ Print Assumptions C13_table_check_sound.
    model writer produces for strictly increasing pairs is, when opened by the model reader with
    or without checksum verification, a well-formed table holding exactly those pairs — so
    B.1-B.6 apply to it.
-   FULL STATEMENT (not proved): the same with snappy = true for every codec with
-   decompress (compress x) = Some x and non-empty output (the uncompressed blocks are then not
-   bounded by the file length: it needs a size hypothesis on the pairs and on the separators). *)
+   FULL STATEMENT: the same with snappy = true for every codec with decompress (compress x) =
+   Some x and non-empty output - proved below as C13_table_wf_of_write (C.3') under the computable
+   size condition table_sizes_ok (the uncompressed blocks are then not bounded by the file length). *)
 Theorem C13_table_wf_of_write_partial :
   forall tp crc compress decompress fcontains c blockSize ri fgen kvs file fname verify,
   tparams_ok tp -> (forall b, (crc b < 2 ^ 32)%N) -> (forall x, decompress (compress x) = Some x) ->
@@ -243,6 +325,63 @@ Theorem C13_table_roundtrip_partial :
        forall ops, fst (ti_run c rd t ops) = c_run c (restrict c start limit kvs) CSOI ops).
 Proof. exact table_roundtrip. Qed.
 Print Assumptions C13_table_roundtrip_partial.
+
+(* C.3' / C.4'  the writer theorems for BOTH compression settings ([snappy] is the writer's
+   Compression = SnappyCompression: data, metaindex and index blocks go through the codec, the
+   filter block does not).  The codec is any pair with decompress (compress x) = Some x whose
+   encoder never returns the empty string (Writer uses pendingBH.length = 0 for "no pending
+   block"; snappy.Encode always emits the length prefix).  With compression the file length no
+   longer bounds the blocks the reader decodes, and the format's uint32 restart offsets need every
+   UNCOMPRESSED block below 2^32 bytes: that is the computable condition table_sizes_ok
+   (Codec/TableSizes.v: 34 bytes per pair cover the data blocks and the metaindex block; the
+   index block's size - its separators come from the comparer, whose contract does not bound
+   their length - is read off the model writer's final state).  The range iterator clause now
+   includes the empty table (B.4b).  The contract is validated against golang/snappy on every
+   run: the model decoder Codec/Snappy.v decodes what snappy.Encode produced back to the input
+   (case KSnappy) and reads the snappy tables the Go writer wrote (KTable: format membership
+   with exactly the input pairs, all probes and walks). *)
+Theorem C13_table_wf_of_write :
+  forall tp crc compress decompress fcontains c blockSize ri fgen snappy kvs file fname verify,
+  tparams_ok tp -> (forall b, (crc b < 2 ^ 32)%N) ->
+  (forall x, decompress (compress x) = Some x) -> (forall x, compress x <> []) ->
+  comparer_ok c -> (forall k, cmp c [] k <> Gt) -> (1 <= ri)%N ->
+  sorted c kvs ->
+  twrite tp crc compress c blockSize ri snappy fgen kvs = Some file -> (lenN file < 2 ^ 32)%N ->
+  table_sizes_ok tp crc compress c blockSize ri snappy fgen kvs = true ->
+  exists blocks seps hs,
+    table_wf c (open_table tp crc decompress fcontains c file fname verify) blocks seps hs /\
+    tkvs blocks = kvs.
+Proof.
+  intros tp crc compress decompress fcontains c blockSize ri fgen snappy kvs file fname verify Htp Hcrc Hcodec Hne Hc Hel Hri.
+  exact (table_wf_of_write_z tp Htp crc Hcrc compress decompress Hcodec Hne fcontains c Hc Hel blockSize ri Hri fgen snappy kvs file fname verify).
+Qed.
+Print Assumptions C13_table_wf_of_write.
+
+Theorem C13_table_roundtrip :
+  forall tp crc compress decompress fcontains c blockSize ri fgen snappy kvs file fname verify strict,
+  tparams_ok tp -> (forall b, (crc b < 2 ^ 32)%N) ->
+  (forall x, decompress (compress x) = Some x) -> (forall x, compress x <> []) ->
+  comparer_ok c -> (forall k, cmp c [] k <> Gt) -> (1 <= ri)%N ->
+  sorted c kvs ->
+  twrite tp crc compress c blockSize ri snappy fgen kvs = Some file -> (lenN file < 2 ^ 32)%N ->
+  table_sizes_ok tp crc compress c blockSize ri snappy fgen kvs = true ->
+  let rd := open_table tp crc decompress fcontains c file fname verify in
+  (forall k v, In (k, v) kvs -> tget c rd k = FFound k v) /\
+  (forall k, (forall v, ~ In (k, v) kvs) -> tget c rd k = FNotFound) /\
+  (forall key, tfind c rd key false =
+     match first_ge c key kvs 0 with
+     | Some i => match nth_error kvs i with Some (k, v) => FFound k v | None => FOther end
+     | None => FNotFound
+     end) /\
+  (exists t, new_titer c rd None strict = inr t /\
+     forall ops, fst (ti_run c rd t ops) = c_run c kvs CSOI ops) /\
+  (forall k1 k2, cmp c k1 k2 <> Gt ->
+     exists o1 o2, toffset_of c rd k1 = Ok o1 /\ toffset_of c rd k2 = Ok o2 /\ (o1 <= o2)%N) /\
+  (forall start limit,
+     exists t, new_titer c rd (Some (start, limit)) strict = inr t /\
+       forall ops, fst (ti_run c rd t ops) = c_run c (restrict c start limit kvs) CSOI ops).
+Proof. exact table_roundtrip_z. Qed.
+Print Assumptions C13_table_roundtrip.
 
 (* the constants of the current source satisfy the layout side conditions *)
 Theorem C13_table_constants_ok : tparams_ok tblp.
@@ -340,3 +479,44 @@ Proof.
   split; [|split; reflexivity].
   apply (table_wfb_sound bytewise ex_reader 2). vm_compute. reflexivity.
 Qed.
+
+(* Non-vacuity of C.3'/C.4': a codec that is not the identity (one tag byte in front: never empty,
+   decompress (compress x) = Some x for all x), the seven-pair table of C13_table_nonvacuous written
+   by the model writer WITH compression and a filter block: the size condition evaluates to true,
+   the file is below 2^32 bytes, and lookups through the model reader behave.  And the model of
+   golang/snappy's decoder inverts a block snappy.Encode produced (literal + overlapping copy). *)
+Definition tag_compress (x : bytes) : bytes := 7%N :: x.
+Definition tag_decompress (y : bytes) : option bytes := match y with 7%N :: x => Some x | _ => None end.
+Definition ex_fgen : option (bytes * (list (N * list bytes) -> bytes)) := Some ([102; 49]%N, fun _ => [0; 0; 0; 0; 11]%N).
+Example C13_write_snappy_nonvacuous :
+  (forall x, tag_decompress (tag_compress x) = Some x) /\ (forall x, tag_compress x <> []) /\
+  table_sizes_ok tblp tbl_crc tag_compress bytewise 24 2 true ex_fgen ex_tkvs = true /\
+  match twrite tblp tbl_crc tag_compress bytewise 24 2 true ex_fgen ex_tkvs with
+  | Some f =>
+      (lenN f <? 2 ^ 32)%N = true /\
+      let rd := open_table tblp tbl_crc tag_decompress (fun _ _ _ => true) bytewise f (Some [102; 49]%N) true in
+      tget bytewise rd [98;98]%N = FFound [98;98]%N [4]%N /\
+      tfind bytewise rd [97;99]%N false = FFound [98]%N [3;3;3]%N /\
+      table_check bytewise rd 2 = Some ex_tkvs
+  | None => False
+  end /\
+  snappy_decode [12; 4; 97; 98; 25; 2]%N = Some [97; 98; 97; 98; 97; 98; 97; 98; 97; 98; 97; 98]%N.
+Proof.
+  split; [reflexivity|]. split; [discriminate|]. vm_compute. repeat split; reflexivity.
+Qed.
+
+(* B.7 is about results, not about OffsetOf beyond the last key: the same file (written with a
+   filter block named "f1") read by a reader that has the policy "f1" and by a reader without a
+   filter: every data handle is the same, OffsetOf of a key beyond all keys is 88 with the
+   policy (the filter block's offset) and 98 without (the metaindex block's offset). *)
+Example C13_policy_visible_in_offsetof_beyond_end :
+  match twrite tblp tbl_crc (fun x => x) bytewise 24 2 false ex_fgen ex_tkvs with
+  | Some f =>
+      let rd1 := open_table tblp tbl_crc (fun _ => None) (fun _ _ _ => true) bytewise f (Some [102; 49]%N) true in
+      let rd2 := open_table tblp tbl_crc (fun _ => None) (fun _ _ _ => true) bytewise f None true in
+      toffset_of bytewise rd1 [122]%N = Ok 88%N /\ toffset_of bytewise rd2 [122]%N = Ok 98%N /\
+      toffset_of bytewise rd1 [98]%N = toffset_of bytewise rd2 [98]%N /\
+      tget_filtered bytewise rd1 [98;98]%N = tget_filtered bytewise rd2 [98;98]%N
+  | None => False
+  end.
+Proof. vm_compute. repeat split; reflexivity. Qed.
